@@ -162,6 +162,10 @@ class _FindChangesForModule:
                 assignment_type = self.worder.get_assignment_type(start)
                 self.is_augmented_set = assignment_type != "="
                 if assignment_type == "=":
+                    if self._is_in_a_chained_assignment(start):
+                        raise exceptions.RefactoringError(
+                            "Cannot handle chained assignments in encapsulate field."
+                        )
                     result.append(self.setter + "(")
                 else:
                     var_name = (
@@ -217,6 +221,17 @@ class _FindChangesForModule:
     def _is_assigned_in_a_tuple_assignment(self, occurrence):
         offset = occurrence.get_word_range()[0]
         return self.worder.is_assigned_in_a_tuple_assignment(offset)
+
+    def _is_in_a_chained_assignment(self, offset):
+        """`y = a.x = 7`: a setter call has no value for the other targets"""
+        lineno = self.lines.get_line_number(offset)
+        start, end = self.pymodule.logical_lines.logical_line_in(lineno)
+        return any(
+            isinstance(node, ast.Assign)
+            and len(node.targets) > 1
+            and start <= node.lineno <= end
+            for node in ast.walk(self.pymodule.get_ast())
+        )
 
     @property
     @utils.saveit
